@@ -145,7 +145,9 @@ type fakeClock struct{ ms atomic.Int64 }
 
 func (c *fakeClock) Now() time.Time { return time.UnixMilli(c.ms.Load()) }
 
-type fakeContainers struct{ m map[cid.ID]container.Container }
+type fakeContainers struct {
+	m map[cid.ID]container.Container
+}
 
 func (x *fakeContainers) Get(id cid.ID) (container.Container, error) {
 	c, ok := x.m[id]
